@@ -540,6 +540,14 @@ def State.split (s : State) (h n minAmount recFee : Nat) : State × SplitOut :=
           (s.splitCommit t, .ok largest remainder per last minerFee)
         else (s, .err)
 
+/-- `SplitUTXO` when the pool refuses the split transaction (`BroadcastV2TransactionSet` fails at
+`AddV2PoolTransactions`, :993-995): everything up to the broadcast is as in `split`, then the
+error is returned before anything is reserved -/
+def State.splitPoolFails (s : State) (h n minAmount recFee : Nat) : State × SplitOut :=
+  match s.split h n minAmount recFee with
+  | (_, .ok ..) => (s, .err)
+  | r => r
+
 /-! ### operations of a script -/
 
 inductive Op
